@@ -252,6 +252,59 @@ theorem sc_decodes_clean_interleaved (c : ℚ) (hc : 0 < c) (fz : Bool) (m : Nat
     (by rw [length_place, hi]) (place_frozen fz info msg) hy]
   exact extract_place fz info msg hm
 
+/-! ## the sum-product regime
+
+`kaira.models.fec.utils.sum_product` computes a transcendental inner value (2·atanh(tanh(x/2)·tanh(y/2)) for weak inputs, the
+log1p form for strong ones) and then, for non-zero inputs, returns `sign(x)·sign(y)·max(|inner|, tiny)`; the SC check node clips
+the result to ±c.  The inner value is not modelled (floating-point transcendental functions): it is an arbitrary function `h`
+here, so the theorems below hold for whatever it returns — the sign of the rule, and with it clean decoding, rests on the final
+re-imposition of the sign alone.  (The *values* of the rule are compared with the float64 definition by the check.) -/
+
+def sumProductF (h : ℚ → ℚ → ℚ) (tiny c : ℚ) (x y : ℚ) : ℚ :=
+  clip c (if x ≠ 0 ∧ y ≠ 0 then rsign x * rsign y * (if rabs (h x y) < tiny then tiny else rabs (h x y)) else h x y)
+
+/-- the sum-product check rule as implemented has the sign law, for every inner formula `h` -/
+theorem sumProduct_signLaw (h : ℚ → ℚ → ℚ) (tiny c : ℚ) (ht : 0 < tiny) (hc : 0 < c) : SignLaw (sumProductF h tiny c) := by
+  have key : ∀ a b : ℚ, a ≠ 0 → b ≠ 0 →
+      (sumProductF h tiny c a b ≠ 0 ∧ (sumProductF h tiny c a b < 0 ↔ ((a < 0) ↔ ¬ (b < 0)))) := by
+    intro a b ha hb
+    have hmin : 0 < (if rabs (h a b) < tiny then tiny else rabs (h a b)) := by
+      split_ifs with hlt
+      · exact ht
+      · exact lt_of_lt_of_le ht (not_lt.mp hlt)
+    unfold sumProductF
+    rw [if_pos ⟨ha, hb⟩, clip_neg_iff c _ hc]
+    generalize (if rabs (h a b) < tiny then tiny else rabs (h a b)) = mn at hmin
+    refine ⟨clip_ne_zero c _ hc ?_, ?_⟩
+    · unfold rsign
+      rcases lt_or_gt_of_ne ha with ha' | ha' <;> rcases lt_or_gt_of_ne hb with hb' | hb' <;>
+        simp only [ha', hb', not_lt.mpr (le_of_lt ha'), not_lt.mpr (le_of_lt hb'), if_true, if_false] <;>
+        intro h' <;> nlinarith
+    · unfold rsign
+      rcases lt_or_gt_of_ne ha with ha' | ha' <;> rcases lt_or_gt_of_ne hb with hb' | hb' <;>
+        simp only [ha', hb', not_lt.mpr (le_of_lt ha'), not_lt.mpr (le_of_lt hb'), if_true, if_false] <;>
+        constructor <;> intro h' <;> first | nlinarith | simp_all | (exfalso; nlinarith)
+  exact ⟨fun a b ha hb => (key a b ha hb).1, fun a b ha hb => (key a b ha hb).2⟩
+
+/-- **sum-product regime, clean input decodes clean** (natural order and `polar_i`), every m, mask, frozen value, inner formula -/
+theorem sc_decodes_clean_sum_product (h : ℚ → ℚ → ℚ) (tiny c : ℚ) (ht : 0 < tiny) (hc : 0 < c) (inter fz : Bool) (m : Nat)
+    (info msg : List Bool) (y : List ℚ) (hi : info.length = 2 ^ m) (hm : msg.length = (info.filter id).length)
+    (hy : Consistent y (polarEncode m inter fz info msg)) :
+    scDecode m inter (sumProductF h tiny c) fz info y = msg := by
+  cases inter with
+  | false =>
+    unfold scDecode polarEncode at *
+    simp only [Bool.false_eq_true, if_false] at *
+    rw [sc_clean _ (sumProduct_signLaw h tiny c ht hc) fz m (place fz info msg) info y
+      (by rw [length_place, hi]) (place_frozen fz info msg) hy]
+    exact extract_place fz info msg hm
+  | true =>
+    unfold scDecode polarEncode at *
+    simp only [if_true] at *
+    rw [ScIProofs.scI_clean _ (sumProduct_signLaw h tiny c ht hc) fz m (place fz info msg) info y
+      (by rw [length_place, hi]) (place_frozen fz info msg) hy]
+    exact extract_place fz info msg hm
+
 /-! ## the 5G reliability ranking (K obligations on the extracted CSV, U theorem for the cardinality) -/
 
 /-- the ranking extracted from `rank_polar.csv` **is** the 5G NR sequence (TS 38.212 Table 5.3.1.2-1,
